@@ -424,6 +424,22 @@ func (e *Eng) verifyFunc(fc *FuncContract, refute bool, unrollK int) (res *FuncR
 	for _, p := range fn.Params {
 		tr.params = append(tr.params, tr.freshVal("p_"+p.Name(), p.Type(), a0))
 	}
+	// Go typing: two pointers to the same struct/array type are equal or do not overlap
+	for i := range tr.params {
+		pi, ok := tr.params[i].T.Underlying().(*types.Pointer)
+		if !ok {
+			continue
+		}
+		for j := i + 1; j < len(tr.params); j++ {
+			pj, ok := tr.params[j].T.Underlying().(*types.Pointer)
+			if !ok || !types.Identical(pi.Elem(), pj.Elem()) {
+				continue
+			}
+			sz := Int(int64(sizeOf(pi.Elem())))
+			a, b := tr.params[i], tr.params[j]
+			vc.Assume(Or(Ne(a.L[0], b.L[0]), Eq(a.L[1], b.L[1]), Le(Add(a.L[1], sz), b.L[1]), Le(Add(b.L[1], sz), a.L[1])))
+		}
+	}
 	if refute {
 		// bounded search: parameter objects are pairwise distinct concrete ids (no aliasing)
 		next := int64(500000)
